@@ -78,9 +78,9 @@ const char* SkipToMatchingQuote(const char* s) {
   assert((*s == '\'') || (*s == '"'));
   char quote = s[0];
   ++s;
-  while (*s != quote)
+  while (*s && *s != quote)
     ++s;
-  return ++s;
+  return s;   // the closing quote, or the terminating NUL if there is none
 }
 
 struct Deleter {
@@ -272,6 +272,10 @@ std::string OptionHelper<std::string>::Parse(const char *&s, bool splitString) {
   if (quoted(s))
   {
     s = SkipToMatchingQuote(s);
+    if (!*s)
+      throw OptionError(fmt::format(
+          "Missing closing quote in option value {}", start));
+    ++s;
     return std::string(start + 1, s - start - 2);
   }
   else
